@@ -220,7 +220,10 @@ pub fn gen_program(r: &mut Rng, o: &ProgOpts) -> Prog {
             0..=2 => alu(r, &mut body),
             3 => {
                 let k = r.below(n_data as u64);
-                match r.below(4) {
+                match r.below(6) {
+                    // reserved (.blkw) storage read before anything was stored there: directly and through a pointer
+                    4 => body.push(format!("LDI R{}, PB", r.below(6))),
+                    5 => body.push(format!("LD R{}, BUF", r.below(6))),
                     0 => body.push(format!("ST R{}, D{k}", r.below(6))),
                     1 => body.push(format!("LD R{}, D{k}", r.below(6))),
                     2 => body.push(format!("LDI R{}, P{k}", r.below(6))),
@@ -355,6 +358,7 @@ pub fn gen_program(r: &mut Rng, o: &ProgOpts) -> Prog {
         t.push_str(&format!("P{k} .fill D{}\n", r.below(n_data as u64)));
     }
     t.push_str("BUF .blkw 4\n");
+    t.push_str("PB .fill BUF\n");
     t.push_str(&format!("CH0 .fill x{:04X}\nCH1 .fill x{:04X}\n", 0x21 + r.below(0x5D) as u16, (r.u16() & 0xFF00) | (0x21 + r.below(0x5D) as u16)));
     for k in 0..2 {
         let n = r.below(7) as usize;
